@@ -26,6 +26,7 @@ type Obligation struct {
 	Pos     string
 	Props   []string
 	Split   *CaseSplit // prove by exhaustive case analysis on a small-range loop variable
+	Prefer  *smt.Term  // for counterexamples: an extra constraint that makes the violation observable
 	// filled by the driver
 	Verdict string
 	Solver  string
@@ -90,6 +91,12 @@ type Engine struct {
 	UsedStd       map[string]bool
 	Inlined       map[string]bool
 	verifying     *ssa.Function
+	concrete      []types.Type
+	initCache     map[*ssa.Package]*State
+	globRefs      map[*ssa.Global]int
+	refGlobCache  map[*ssa.Function][]*ssa.Global
+	inInit        bool
+	curState      *State                  // state of the block being executed (for value-level operations that read memory)
 	forced        map[string]bool         // branch decisions by call-context-qualified key
 	havocArr      map[*smt.Term]havocInfo // fresh arrays introduced by havocLocs
 	undecided     []string
@@ -117,6 +124,9 @@ func NewEngine(prog *ssa.Program) *Engine {
 	e.Contracts = map[*ssa.Function]*FnContract{}
 	e.Transparent = map[*ssa.Function]bool{}
 	e.Opaque = map[*ssa.Function]bool{}
+	e.initCache = map[*ssa.Package]*State{}
+	e.globRefs = map[*ssa.Global]int{}
+	e.refGlobCache = map[*ssa.Function][]*ssa.Global{}
 	e.unfolding = map[*ssa.Function]bool{}
 	e.reset()
 	return e
@@ -404,6 +414,7 @@ func (e *Engine) execBlock(f *frame, b *ssa.BasicBlock, entry *State) {
 	e.pc = e.X.And(f.base, pcIn)
 	st := e.mergeStates(conds, sts)
 	f.st = st
+	e.curState = st
 	// φ nodes from forward edges
 	phiVals := map[*ssa.Phi]Val{}
 	for _, ins := range b.Instrs {
@@ -570,12 +581,32 @@ func (e *Engine) strLitByRef(ref uint64) (string, bool) {
 }
 
 func (e *Engine) globalPtr(g *ssa.Global) Val {
+	// aggregates (arrays, structs) live in the heap at reserved constant references
+	switch u := pointee(g.Type()).Underlying().(type) {
+	case *types.Array:
+		return Val{T: g.Type(), C: []*smt.Term{e.X.Const(uint64(e.globalRef(g)), 32), e.X.Const(0, 64)}, Root: RootArr, RootT: typeKey(u.Elem())}
+	case *types.Struct:
+		return Val{T: g.Type(), C: []*smt.Term{e.X.Const(uint64(e.globalRef(g)), 32), e.X.Const(0, 64)}, Root: RootObj, RootT: typeKey(pointee(g.Type()))}
+	}
 	c, ok := e.globals[g]
 	if !ok {
 		c = &Cell{Name: g.String(), T: pointee(g.Type()), Glob: g}
 		e.globals[g] = c
 	}
 	return Val{T: g.Type(), C: []*smt.Term{e.X.Const(0, 32), e.X.Const(0, 64)}, Cell: c}
+}
+
+// globalRef: a stable reserved reference (0x200..0xfff) for a package-level aggregate.
+func (e *Engine) globalRef(g *ssa.Global) int {
+	if id, ok := e.globRefs[g]; ok {
+		return id
+	}
+	id := 0x200 + len(e.globRefs)
+	if id >= 0x1000 {
+		bail("too many package-level aggregates")
+	}
+	e.globRefs[g] = id
+	return id
 }
 
 // initCell gives the first-read value of a cell: globals get their modelled initial value.
@@ -597,7 +628,7 @@ func (e *Engine) globalInitial(g *ssa.Global) Val {
 	t := pointee(g.Type())
 	if _, ok := t.Underlying().(*types.Interface); ok && types.TypeString(t, nil) == "error" {
 		id := e.errGlobalID(g)
-		return Val{T: t, C: []*smt.Term{e.X.Const(uint64(e.tagOf(types.NewPointer(types.Typ[types.Invalid]))), 32), e.X.Const(uint64(id), 64)}}
+		return Val{T: t, C: []*smt.Term{e.X.Const(uint64(e.tagNamed("*errors.errorString")), 32), e.X.Const(uint64(id), 64)}}
 	}
 	if tv, ok := e.tableGlobal(g); ok {
 		return tv
